@@ -20,6 +20,7 @@ EXPLANATION = (
     "and every push_back/pop_front is paired with the bytes_held add/subtract of that chunk's wire length; "
     "(advance-clears) advance_to_file always clears the ring and drops the pending resume. Not decided: contiguity of "
     "offsets across pushes (producer arithmetic, only a debug_assert) and the numeric capacity bound itself."
+    ' advance-clears is applied to every TransferControl function that stores current_file_index (ring emptied and pending_resume cleared on every path), not to advance_to_file alone.'
 )
 ASSUMPTIONS = ["VecDeque push_back/pop_front/iter are FIFO", "Arc<Vec<u8>> clone shares the same bytes"]
 
